@@ -449,6 +449,16 @@ func (db *SpecDB) lookup(keys ...string) *FuncSpec {
 		}
 	}
 	for _, k := range keys {
+		// package wildcard: "strconv.*"
+		if !strings.HasPrefix(k, "(") && !strings.Contains(k, "/") {
+			if i := strings.Index(k, "."); i > 0 {
+				if fs, ok := db.Funcs[k[:i]+".*"]; ok {
+					return fs
+				}
+			}
+		}
+	}
+	for _, k := range keys {
 		// method name wildcard: "*.GetName"
 		if i := strings.LastIndex(k, ")."); i >= 0 {
 			if fs, ok := db.Funcs["*."+k[i+2:]]; ok {
